@@ -33,7 +33,7 @@ MUST_OBSERVE = ["histories", "calculators_observed", "steps_traced", "override_s
                 "limits_compared", "gravity_checked", "accuracy_checked", "iteration_cap_checked", "defaults_fresh_interpreter",
                 "nonpositive_rejected", "dict_mutation_checked", "names_parsed", "aliases_parsed", "channel__parse_unit",
                 "channel_set", "channel_basicConfig", "channel_toml_units", "channel_toml_step", "channel__parse_value",
-                "unknown_names_checked", "slow_steps_traced", "radian_variants"]
+                "unknown_names_checked", "slow_steps_traced", "radian_variants", "slot_names_resolved"]
 ASSUMPTIONS = ["alias expectations from vf/golden/unit_aliases.json (the documented alias table; the entry written as one string "
                "'in/100yard, inper100yd' is listed as the two aliases it documents)",
                "per-step advance is measured relative to the air (ground displacement minus wind x dt) between successive points "
@@ -461,6 +461,28 @@ def check_name(ctx, rng, name, unit_name, is_alias, tmpdir):
     PreferredUnits.defaults()
 
 
+def check_slot_names(ctx, rng):
+    """_parse_unit / _parse_value resolve a slot name ('distance', 'drop', ...) to the unit currently preferred for it."""
+    for _ in range(3):
+        for slot, dim in SLOT_DIM.items():
+            u = Unit[rng.choice(si.DIMENSIONS[dim])]
+            setattr(PreferredUnits, slot, u)
+            case = {"kind": "slot-name", "slot": slot, "unit": u.name}
+            ctx.case(case, nontrivial=True, sample=False)
+            ctx.count("slot_names_resolved")
+            for text in (slot, slot.upper(), f" {slot} "):
+                got = _parse_unit(text)
+                if got is not u:
+                    ctx.violation("parse.slot-name", f"_parse_unit({text!r}) gave {got!r} while PreferredUnits.{slot} is {u!r}", case)
+            try:
+                q = _parse_value(1.5, slot)
+                if q.units is not u:
+                    ctx.violation("parse.slot-name", f"_parse_value(1.5, {slot!r}) is in {q.units!r} while PreferredUnits.{slot} is {u!r}", case)
+            except Exception as exc:  # pylint: disable=broad-except
+                ctx.violation("parse.slot-name", f"_parse_value(1.5, {slot!r}) raised {type(exc).__name__}", case)
+    PreferredUnits.defaults()
+
+
 def check_unknown(ctx, text, tmpdir):
     case = {"kind": "unknown", "text": text}
     ctx.case(case, nontrivial=True, sample=False)
@@ -581,6 +603,7 @@ def run(ctx):
         names += [(a, u, True) for a, u in alias_table().items()]
         for name, unit_name, is_alias in ctx.my(names):
             check_name(ctx, rng, name, unit_name, is_alias, tmpdir)
+        check_slot_names(ctx, rng)
         unknown = ["meters", "yards", "feets", "inches", "radians", "degrees", "kilo", "set", "defaults", "__doc__", "__class__",
                    "__dict__", "__module__", "", "   ", "xyz", "o'clock", "in/100", "Unit.Meter", "10", "mete", "eter", "nauticalmiles",
                    "in/100yard, inper100yd", "f p s", "°", "none", "null"]
